@@ -138,12 +138,14 @@ def execute(case):
                 exc = views['exception'][1]
                 if not _program_raised(ex, exc):
                     v('kill-excepted', f"{first['what']} by {first['who']} in state {first['state_before']}: ended excepted with {type(exc).__name__}: {exc}")
-            # no further step is entered after the request
-            if views['terminated']:
-                entered_after = [
-                    e for e in w.trace.get(pid, []) if e['k'] == 'enter' and e.get('_after_kill')
-                ]
-                _ = entered_after
+            # ... or EXCEPTED if the step that was in flight fails: the failure overrules the pending kill
+            failed_after = [e for e in w.trace.get(pid, [])[first.get('n_trace', 0) :] if e['k'] == 'exit' and e['outcome'] == 'raised']
+            if failed_after and final == 'killed' and first['who'] != 'probe':
+                v('step-failed-but-killed', f"step {failed_after[0]['step']} raised after the kill request by {first['who']} but the process ended killed")
+            # as soon as the current step yields: no further step is entered after the request
+            entered_after = [e for e in w.trace.get(pid, [])[first.get('n_trace', 0) :] if e['k'] == 'enter']
+            if entered_after and views['terminated'] and final in ('killed',) and first['what'] == 'kill':  # a cancelled future is noticed one loop iteration later (asyncio schedules done-callbacks)
+                v('step-after-kill', f"step {entered_after[0]['step']} was entered after the kill request by {first['who']} in state {first['state_before']}")
             # (3) return value / future
             for r in live_kills:
                 if r['raised']:
